@@ -587,7 +587,7 @@ func TestC12Auth(t *testing.T) {
 
 func TestC12AuthFileHistory(t *testing.T) {
 	dir := t.TempDir()
-	hx.Check(t, hx.Scale(8, 80), func(t *rapid.T) {
+	hx.Check(t, hx.Scale(60, 600), func(t *rapid.T) {
 		file := filepath.Join(dir, fmt.Sprintf("htpasswd-%d", time.Now().UnixNano()))
 		model := map[string]string{}
 		write := func() {
@@ -608,7 +608,7 @@ func TestC12AuthFileHistory(t *testing.T) {
 			model[u] = "pw-" + u + "-0"
 		}
 		write()
-		refresh := 25 * time.Millisecond
+		refresh := 8 * time.Millisecond
 		schemes, err := auth.LoadAuthSchemes(map[string]config.AuthScheme{"b": {Name: "b", Type: "basic", Basic: config.BasicAuth{Realm: "r", File: file, Refresh: refresh}}})
 		if err != nil {
 			t.Fatal(err)
@@ -627,8 +627,8 @@ func TestC12AuthFileHistory(t *testing.T) {
 		known := map[string]map[string]bool{} // every password ever valid per user
 		var hist []string
 		rewrites := 0
-		for i, n := 0, rapid.IntRange(4, 14).Draw(t, "nops"); i < n; i++ {
-			if rapid.IntRange(0, 2).Draw(t, "rewrite") == 0 {
+		for i, n := 0, rapid.IntRange(6, 16).Draw(t, "nops"); i < n; i++ {
+			if rapid.IntRange(0, 3).Draw(t, "rewrite") == 0 {
 				u := rapid.SampledFrom(users).Draw(t, "user")
 				switch rapid.IntRange(0, 2).Draw(t, "change") {
 				case 0:
@@ -638,9 +638,21 @@ func TestC12AuthFileHistory(t *testing.T) {
 					model[u] = fmt.Sprintf("pw-%s-%d", u, i)
 					hist = append(hist, "set password of "+u)
 				}
-				write()
+				// a sentinel entry with a fresh password tells when the rewritten file has been loaded
 				rewrites++
-				time.Sleep(8 * refresh) // several refresh ticks
+				sentinelPW := fmt.Sprintf("sentinel-%d", rewrites)
+				model["sentinel"] = sentinelPW
+				write()
+				loaded := false
+				for deadline := time.Now().Add(10 * time.Second); time.Now().Before(deadline); time.Sleep(refresh) {
+					if try("sentinel", sentinelPW) == 200 {
+						loaded = true
+						break
+					}
+				}
+				if !loaded {
+					t.Fatalf("the rewritten credential file was not picked up within 10s (refresh %v)\nhistory: %s", refresh, strings.Join(hist, "; "))
+				}
 				continue
 			}
 			u := rapid.SampledFrom(users).Draw(t, "loginuser")
@@ -657,6 +669,9 @@ func TestC12AuthFileHistory(t *testing.T) {
 			}
 			sort.Strings(cands)
 			pw := rapid.SampledFrom(cands).Draw(t, "password")
+			if cur, ok := model[u]; ok && rapid.Bool().Draw(t, "usecurrent") {
+				pw = cur // a successful login is what a later revocation has to override
+			}
 			want := 401
 			if cur, ok := model[u]; ok && cur == pw {
 				want = 200
